@@ -650,6 +650,39 @@ fn main() {
             }
             writeln!(out, "#SUMMARY\tevaluations={}\ttimeouts=0", n).unwrap();
         }
+        // other threads may look at the breakpoint set while a session runs (list_breakpoints takes &self): every hit is still delivered
+        "contend" => {
+            new_epoch(true);
+            let n = 120usize;
+            let input: String = (0..n).map(|i| ["a", "bc", "d7"][i % 3]).collect::<Vec<_>>().join(" ");
+            let mut ctx = DebuggerContext::default();
+            ctx.load_grammar_direct("contend", CFGS[0].grammar).unwrap();
+            ctx.load_input_direct(input.clone());
+            ctx.add_breakpoint("ident".to_owned());
+            for k in 0..20000 { ctx.add_breakpoint(format!("filler_{}", k)); }
+            let (tx, rx) = sync_channel(1);
+            ctx.run(CFGS[0].rule, tx).unwrap();
+            let stop = std::sync::atomic::AtomicBool::new(false);
+            let (mut hits, mut last) = (0usize, String::new());
+            std::thread::scope(|sc| {
+                for _ in 0..2 { sc.spawn(|| { while !stop.load(std::sync::atomic::Ordering::Relaxed) { let _ = ctx.list_breakpoints().len(); } }); }
+                loop {
+                    match rx.recv_timeout(Duration::from_millis(8000)) {
+                        Ok(DebuggerEvent::Breakpoint(r, _)) => { if r == "ident" { hits += 1; } let _ = ctx.cont(); }
+                        Ok(DebuggerEvent::Eof) => { last = "EOF".into(); break; }
+                        Ok(DebuggerEvent::Error(e)) => { last = format!("ERR {}", esc(&e)); break; }
+                        Err(_) => { last = "TIMEOUT".into(); break; }
+                    }
+                }
+                stop.store(true, std::sync::atomic::Ordering::Relaxed);
+            });
+            let impl_obs = format!("{} hits on `ident`, then {}", hits, last);
+            let want = format!("{} hits on `ident`, then EOF", n);
+            if impl_obs != want {
+                writeln!(out, "MISMATCH\tspec\tident-long\t1\t2\tcontend\tFREE\t{}\tother threads listing the breakpoints while the session runs: {}", impl_obs, want).unwrap();
+            }
+            writeln!(out, "#RUNNER\tcases=1\tmismatches={}\tdistinct_nontrivial=1", if impl_obs != want { 1 } else { 0 }).unwrap();
+        }
         "cli" => cli_mode(&loaded, &arg(2), arg(3).parse().unwrap_or(40), &mut out),
         _ => { eprintln!("usage: c17 entries | c17 force < cases | c17 cli <pest_debugger binary> <delay ms> < sessions"); std::process::exit(2); }
     }
